@@ -19,7 +19,8 @@ CHECKS['C02'] = dict(
    text='Exhaustive: TLC evaluates the decode clauses on the frozen TLA+ instruction table for all 65536 first words, and '
         'TLC validates, for all 65536 words, what the real decoder (recording visitor), the interpreter instantiation, the '
         'disassembler and the parser report against that table; the disassembler is asked plain, with an ar/arp register view and plain '
-        'again (same plain answer; annotated text = plain text with every slot rendered from TeakRegs bit-field views).',
+        'again (same plain answer; annotated text = plain text with every slot rendered from TeakRegs bit-field views); the listing that '
+        'the repository\'s dsp1_reader makes of random firmware images must be the instruction stream Dsp1.tla derives with the same table.',
    design_ref='5.2',
    note='Trusted: TLC, CommunityModules, g++; TeakDecodeTable.tla (transcribed once from the pinned decoder.h, frozen). '
         'Execution clause: every first word that takes a second word is executed by the real interpreter from random states '
@@ -126,7 +127,9 @@ CHECKS['C14'] = dict(
         'directions); every transition of the one-direction state graphs is replayed on a real Teakra (spec -> impl) and random '
         'histories through facade + MMIO are validated by TLC (impl -> spec); guest programs that poll, echo, mask and '
         'acknowledge while the host calls the API between slices are validated against the composed System.tla (mailbox state, '
-        'status registers, ICU request and latches, handler entry, every host callback in order).',
+        'status registers, ICU request and latches, handler entry, every host callback in order); re-entrant semaphore callbacks '
+        '(ApbpReent.tla: a call is a Begin step, the nested calls its handler makes, an End step) are model-checked over every nesting '
+        'and a real object whose handler re-enters at random is validated step by step.',
    design_ref='5.14',
    note='Trusted: TLC, CommunityModules, g++. 3 channels and 16 semaphore bits are covered by trace validation, exhaustive at the scaled constants.',
    technique='TLA+ spec + TLC exhaustive model checking + state-graph edge replay + TLC trace validation')
@@ -189,7 +192,9 @@ CHECKS['C05'] = dict(
         'canonical word with the same length and identical disassembly for several second words, that the joined text and the C '
         'binding equal the token list; for sampled words the C binding is run into a canary-framed buffer of every size 0..len+2; every '
         'line of the four firmware sources is validated against the shipped binaries in both directions, and makedsp1 reproduces them '
-        'byte for byte.',
+        'byte for byte; Dsp1.tla specifies the firmware tools (source front end with every error exit, container layout, reader '
+        'listing): TLC proves round trip / disjoint layout / stream recovery on all small sources, and hundreds of random sources run '
+        'through the real makedsp1 and dsp1_reader are validated field by field.',
    design_ref='5.5',
    note='Trusted: TLC, CommunityModules, g++; TeakDecodeTable.tla (frozen). Second words are sampled (4 per opcode); the byte-for-byte '
         'comparison of makedsp1 output is a direct file comparison made by the runner.',
@@ -243,7 +248,7 @@ def main():
     hooks_commits = os.popen("git -C /repo log --format=%h --grep='^verif hooks'").read().split()
     m = {
         'version': 1,
-        'setup_cmd': 'make -s -j16 -C /verif/harness FLAVOUR=plain all && /verif/tools/vbuild makedsp1 && /verif/tools/vbuild fuzz_rec asan && /verif/tools/vbuild conc_rec tsan',
+        'setup_cmd': 'make -s -j16 -C /verif/harness FLAVOUR=plain all && /verif/tools/vbuild makedsp1 && /verif/tools/vbuild dsp1_reader && /verif/tools/vbuild fuzz_rec asan && /verif/tools/vbuild conc_rec tsan',
         'hooks': {
             'guard': 'TEAKRA_VERIF',
             'enable': 'the harness Makefile compiles /repo/src/*.cpp from the working tree with -DTEAKRA_VERIF (see harness/Makefile)',
